@@ -35,7 +35,7 @@ from operon_ai.surveillance.innate import (InnateImmunity, TLRPattern, PAMPCateg
 ID = "C10"
 LEVEL = "exploration"
 ENGINE = "seq+threads"
-RUNS = {"quick": 14_000, "thorough": 900_000}
+RUNS = {"quick": 12_000, "thorough": 900_000}
 RULE = ("seeded histories (6-30 operations) over filter()/check() of pool inputs (an instance of each of the 19 "
         "membrane and 17 innate built-in signatures and of 10 generated substring/regex signatures, 5 case "
         "perturbations, embedding in benign prefix/suffix, benign text, control characters, lone surrogates, "
@@ -106,7 +106,14 @@ CUSTOM = [  # (pattern, is_regex, instance)
     ("\x1b[31m", False, "\x1b[31m"),
     (r"(?:base64|rot13)\s*decode", True, "base64 decode"),
     ("a", False, "a"),
+    # regexes whose meaning depends on being compiled on their own: numbered back-references, inline flags
+    (r"(['\"])role\1", True, "'role'"),
+    (r"\b(\w+)(?:\s+\1){3,}", True, "spam spam spam spam"),
+    (r"(?s)begin-payload.*?end-payload", True, "begin-payload\nxyz\nend-payload"),
+    (r"(?i:tOkEn)\s*=\s*(\w)\1", True, "token = zz"),
 ]
+ONE_LETTER = 9
+SPECIAL = [10, 11, 12, 13]     # back-references / inline flags
 M_INST = ["ignore previous", "ignore all previous", "disregard all prior", "jailbreak", "DAN mode", "developer mode",
           "system prompt", "reveal your instructions", "what are your rules", "show me your prompt", "```system",
           "[INST] do it [/INST]", "<|im_start|>", "<|x|>", "Human:", "pretend you are", "act as if you", "roleplay as",
@@ -358,7 +365,7 @@ def _gen_seq(rng, tier):
                         ["f", 1 - j, x]]
         elif seg == "tighten":
             # judged clean first, then the rule set grows by each of the four routes, then the identical input again
-            c = rng.randrange(len(CUSTOM))
+            c = rng.randrange(len(CUSTOM)) if rng.random() < 0.75 else rng.choice(SPECIAL)
             x = _inst(rng, ("cu",), cu=c)
             lvl = rng.choice([2, 3, 3])
             how = rng.choice(["import", "import", "learn", "addsig", "thr"])
@@ -401,6 +408,8 @@ def _gen_seq(rng, tier):
         elif seg == "innate_rules":
             what = rng.choice(["ithr", "iadd", "ival"])
             x = _inst(rng, ("ii", "cu"))
+            if rng.random() < 0.35:     # an input that matches only a rule that must be compiled on its own
+                what, x = "iadd", _inst(rng, ("cu",), cu=rng.choice(SPECIAL))
             ops.append(["c", x])
             if what == "ithr":
                 ops.append(["ithr", rng.choice([1, 2, 3, 4, 5, 6])])
@@ -890,7 +899,7 @@ def _gen_threads(rng, tier):
     ntasks = rng.choice([2, 2, 2, 3])
     tasks = []
     if replay:
-        c = rng.randrange(len(CUSTOM) - 1)          # not the one-letter pattern
+        c = rng.choice([q for q in range(len(CUSTOM)) if q != ONE_LETTER])
         cfg["custom"] = [[c, 2]]
         x = ["cu", c, 0, rng.randrange(len(BENIGN)), 0]
         y = ["mi", rng.randrange(KEEP_BUILTINS), 0, 0, 0]       # always refused on the scan path
